@@ -3,6 +3,8 @@ import VlsModel.Gen.FnEnforce
 import VlsModel.Lemmas.FnGen
 import VlsModel.Lemmas.EnforcementFn
 import VlsModel.Lemmas.SecretsFn
+import VlsModel.Lemmas.SecretsSound
+import VlsModel.Props.C03
 /-
 C03 — the enforcement-state updates and selectors that the hand-written model `Model/Enforcement.lean` inlines
 in `signCp`, `revokeCp`, `revoke` and `prevPoint`, proved equal to the bodies of
@@ -359,6 +361,104 @@ theorem C03_fn_get_secret {H : Type} (h : List Nat → H) (tb : H → List Nat) 
     · simp [d, Rs.assert]
     · simp [d, Rs.assert, Rs.panic]
 
+/-! #### store soundness of the GENERATED code
+
+`Secrets_store_sound` is proved for every derivation step; with the ties above it transfers to the generated bodies: feed
+the generated `provide_secret` the secrets of consecutive descending indices from 2^48−1 (what `validate_counterparty_revocation`
+does), all accepted — then the generated `get_secret` returns every one of them, whatever the hash function is. -/
+
+/-- the generated `provide_secret` applied to `ss` at the indices `m − 1, m − 2, …` -/
+def genProvideDesc {H : Type} (h : List Nat → H) (tb : H → List Nat) :
+    CounterpartyCommitmentSecrets → Nat → List (List Nat) → Rs.M CounterpartyCommitmentSecrets
+  | st, _, [] => .ok st
+  | _, 0, _ :: _ => .error (.err "()")
+  | st, m + 1, s :: rest =>
+    match CounterpartyCommitmentSecrets.provide_secret h tb st m s with
+    | .ok st' => genProvideDesc h tb st' m rest
+    | .error e => .error e
+
+/-- invariant of the stores the generated code builds from 32-byte secrets -/
+def GoodStore (st : Store (List Nat)) : Prop := st.length ≤ 49 ∧ ∀ e ∈ st, e.1.length = 32
+
+theorem goodStore_provide {H : Type} (h : List Nat → H) (tb : H → List Nat) {st st' : Store (List Nat)} {idx : Nat}
+    {secret : List Nat} (hg : GoodStore st) (hs : secret.length = 32)
+    (hp : provide (stepN h tb) st idx secret = some st') : GoodStore st' := by
+  refine ⟨provide_length _ hp hg.1, ?_⟩
+  obtain ⟨_, _, h3⟩ := provide_some _ hp
+  rcases h3 with rfl | ⟨_, rfl⟩ | ⟨_, rfl⟩
+  · exact hg.2
+  · intro e he
+    rcases List.mem_or_eq_of_mem_set he with he | rfl
+    · exact hg.2 e he
+    · exact hs
+  · intro e he
+    rcases List.mem_append.mp he with he | he
+    · exact hg.2 e he
+    · simp at he; subst he; exact hs
+
+theorem genProvideDesc_eq {H : Type} (h : List Nat → H) (tb : H → List Nat) (hh : ∀ l, (tb (h l)).length = 32) :
+    ∀ (ss : List (List Nat)) (m : Nat) (st : Store (List Nat)), (∀ s ∈ ss, s.length = 32) →
+      genProvideDesc h tb { old_secrets := st } m ss
+        = match provideDesc (stepN h tb) st m ss with
+          | some st' => .ok { old_secrets := st' }
+          | none => .error (.err "()")
+  | [], m, st, _ => by simp [genProvideDesc, provideDesc]
+  | s :: rest, 0, st, _ => by simp [genProvideDesc, provideDesc]
+  | s :: rest, m + 1, st, hs => by
+    have h32 : s.length = 32 := hs s (by simp)
+    simp only [genProvideDesc, provideDesc, C03_fn_provide_secret h tb hh st m s h32]
+    cases provide (stepN h tb) st m s with
+    | none => rfl
+    | some st1 =>
+      simp only
+      exact genProvideDesc_eq h tb hh rest m st1 (fun x hx => hs x (by simp [hx]))
+
+theorem goodStore_provideDesc {H : Type} (h : List Nat → H) (tb : H → List Nat) :
+    ∀ (ss : List (List Nat)) (m : Nat) (st st' : Store (List Nat)), GoodStore st → (∀ s ∈ ss, s.length = 32) →
+      provideDesc (stepN h tb) st m ss = some st' → GoodStore st'
+  | [], m, st, st', hg, _, hp => by simp [provideDesc] at hp; subst hp; exact hg
+  | s :: rest, 0, st, st', _, _, hp => by simp [provideDesc] at hp
+  | s :: rest, m + 1, st, st', hg, hs, hp => by
+    simp only [provideDesc] at hp
+    cases hq : provide (stepN h tb) st m s with
+    | none => simp [hq] at hp
+    | some st1 =>
+      simp only [hq] at hp
+      exact goodStore_provideDesc h tb rest m st1 st' (goodStore_provide h tb hg (hs s (by simp)) hq)
+        (fun x hx => hs x (by simp [hx])) hp
+
+/-- **store soundness of the generated code**, for every hash function returning 32 bytes -/
+theorem C03_fn_store_sound {H : Type} (h : List Nat → H) (tb : H → List Nat) (hh : ∀ l, (tb (h l)).length = 32)
+    (ss : List (List Nat)) (hs : ∀ s ∈ ss, s.length = 32) (st' : CounterpartyCommitmentSecrets)
+    (hrun : genProvideDesc h tb CounterpartyCommitmentSecrets.new N48 ss = .ok st') (k : Nat) (hk : k < ss.length) :
+    CounterpartyCommitmentSecrets.get_secret h tb st' (N48 - 1 - k) = .ok (some ss[k]) := by
+  rw [C03_fn_secrets_new, genProvideDesc_eq h tb hh ss N48 [] hs] at hrun
+  cases hp : provideDesc (stepN h tb) [] N48 ss with
+  | none => simp [hp] at hrun
+  | some st1 =>
+    simp only [hp] at hrun
+    have hst : st' = { old_secrets := st1 } := (Except.ok.inj hrun).symm
+    subst hst
+    have hg : GoodStore st1 := goodStore_provideDesc h tb ss N48 [] st1 ⟨by simp, by simp⟩ hs hp
+    have hsound := VlsModel.Props.C03.Secrets_store_sound (stepN h tb) ss st1 hp k hk
+    have hidx : N48 - 1 - k < 2 ^ 64 := by
+      have : N48 = 281474976710656 := by decide
+      omega
+    rw [C03_fn_get_secret h tb hh st1 (N48 - 1 - k) hidx (by have := hg.1; omega) hg.2, hsound]
+
+-- non-vacuity: slot of index 8 is 3; a two-entry store; a constant 32-byte "hash"
+example : CounterpartyCommitmentSecrets.place_secret 8 = .ok 3 := by
+  rw [C03_fn_place_secret]; exact congrArg _ (by decide)
+example : CounterpartyCommitmentSecrets.get_min_seen_secret { old_secrets := [([1], 40), ([2], 12)] } = .ok 12 := by
+  rw [C03_fn_get_min_seen_secret]; exact congrArg _ (by decide)
+example : ∃ st', genProvideDesc (fun l => l) (fun _ => List.replicate 32 0) CounterpartyCommitmentSecrets.new N48
+    [List.replicate 32 7] = .ok st' ∧ st'.old_secrets.length = 1 := by
+  refine ⟨{ old_secrets := [(List.replicate 32 7, N48 - 1)] }, ?_, rfl⟩
+  rw [C03_fn_secrets_new, genProvideDesc_eq (fun l => l) (fun _ => List.replicate 32 0) (by simp) _ _ _ (by simp)]
+  have : provideDesc (stepN (fun l => l) fun _ => List.replicate 32 0) [] N48 [List.replicate 32 7]
+      = some [(List.replicate 32 7, N48 - 1)] := by decide
+  rw [this]
+
 end Secrets
 
 /-! ### the state-dependent checks of `SimpleValidator::validate_counterparty_commitment_tx` (simple_validator.rs:721) and
@@ -447,6 +547,65 @@ theorem C03_fn_validate_counterparty_revocation
         · have e' : ¬ p = fsk () sec := fun h => e h.symm
           simp [a, b, e, e', policyErr_strict]
     · simp [a, b, policyErr_strict]
+
+/-- **the whole `signCp` request** of the model is the composition of the two generated bodies that
+    `Channel::sign_counterparty_commitment_tx(_phase2)` calls in this order — `SimpleValidator::validate_counterparty_commitment_tx`
+    (state checks; content rules external) and `Validator::set_next_counterparty_commit_num` (window + setter): same reply
+    class on every input in the 64-bit range, on success the model's new state is the generated one, on refusal nothing
+    changes -/
+theorem C03_fn_signCp
+    (dO dR : Nat → Nat → Unit × Unit)
+    (vct : Gen.FnSimpleState.EnforcementState Nat Nat → Nat → Nat → Unit → Gen.FnSimpleState.ChainState → Nat → Rs.M Unit)
+    (gi : Gen.FnSimpleState.EnforcementState Nat Nat → Nat → Rs.M (Option Nat))
+    (c : Chan) (n pt info : Nat) (pk : Bool) (t0 : String)
+    (hv : vct (toSV c) n pt () ⟨⟩ info = contentRules pk t0)
+    (hgi : gi (toSV c) n = (toES c).get_previous_counterparty_commit_info n)
+    (hr : c.cpRevoke + 2 ≤ Rs.U64_MAX) (hc : c.cpCommit + 1 ≤ Rs.U64_MAX) (hn : n + 2 ≤ Rs.U64_MAX) :
+    (signCp c n pt info pk).out.res
+        = cls (SimpleValidator.validate_counterparty_commitment_tx dO dR vct strict gi ⟨⟩ (toSV c) n pt () ⟨⟩ info >>= fun _ =>
+                Validator.set_next_counterparty_commit_num strict () (toES c) (n + 1) pt info)
+    ∧ (∀ e, (SimpleValidator.validate_counterparty_commitment_tx dO dR vct strict gi ⟨⟩ (toSV c) n pt () ⟨⟩ info >>= fun _ =>
+                Validator.set_next_counterparty_commit_num strict () (toES c) (n + 1) pt info) = .ok e →
+          toES (signCp c n pt info pk).c = e)
+    ∧ ((signCp c n pt info pk).out.res ≠ .ok → (signCp c n pt info pk).c = c) := by
+  have hhead := C03_fn_validate_counterparty_commitment_tx dO dR vct gi c n pt info pk t0 hv hgi (by omega) hn
+  by_cases good : pk = true ∧ ¬ n > c.cpRevoke + 1 ∧ ¬ (n + 1 = c.cpCommit ∧ c.curPt ≠ some pt)
+      ∧ ¬ (n + 1 = c.cpCommit ∧ c.curInfo ≠ some info)
+  · obtain ⟨hpk, h0, h1, h2⟩ := good
+    subst hpk
+    simp only [Bool.not_true, Bool.false_eq_true, if_false, h0, h1, h2] at hhead
+    obtain ⟨u, hu⟩ := (cls_ok_iff _).mp hhead
+    rw [hu]
+    simp only [Rs.bind_ok]
+    exact C03_fn_signCp_tail c n pt info hr hc h0 h1 h2
+  · have hbad : cls (SimpleValidator.validate_counterparty_commitment_tx dO dR vct strict gi ⟨⟩ (toSV c) n pt () ⟨⟩ info)
+        = .errPolicy := by
+      rw [hhead]
+      cases pk
+      · simp
+      · by_cases a : n > c.cpRevoke + 1
+        · simp [a]
+        · by_cases b : n + 1 = c.cpCommit ∧ c.curPt ≠ some pt
+          · simp [a, b]
+          · by_cases d : n + 1 = c.cpCommit ∧ c.curInfo ≠ some info
+            · simp [a, b, d]
+            · exact absurd ⟨rfl, a, b, d⟩ good
+    have hcomp := cls_bind_errPolicy _ (fun _ => Validator.set_next_counterparty_commit_num strict () (toES c) (n + 1) pt info) hbad
+    have hs : signCp c n pt info pk = fail c .errPolicy := by
+      unfold signCp
+      cases pk
+      · simp
+      · by_cases a : n > c.cpRevoke + 1
+        · simp [a]
+        · by_cases b : n + 1 = c.cpCommit ∧ c.curPt ≠ some pt
+          · simp [a, b]
+          · by_cases d : n + 1 = c.cpCommit ∧ c.curInfo ≠ some info
+            · simp [a, b, d]
+            · exact absurd ⟨rfl, a, b, d⟩ good
+    refine ⟨by rw [hs, hcomp]; rfl, ?_, by rw [hs]; intro _; rfl⟩
+    intro e he
+    rw [he] at hcomp
+    simp [cls] at hcomp
 
 end SimpleState
 
